@@ -272,6 +272,7 @@ pub struct Flw {
     pub moved: usize,
     pub old_current_tokens: Vec<String>,
     pub moved_names: Vec<String>,
+    pub foreign_content: std::collections::HashMap<String, Vec<u8>>,
 }
 impl Flw {
     pub fn ensure(&mut self) -> &ArcFileLogWriter {
@@ -372,6 +373,14 @@ fn stamp_in_name(name: &str) -> Option<u64> {
 }
 
 fn oracles(ctx: &mut Ctx, case_id: &str, li: usize, f: &Flw, h: &Hist, at_sync_point: bool) {
+    // --- foreign files (C14): never modified, renamed, compressed or deleted
+    for (n, c) in &f.foreign_content {
+        match std::fs::read(f.dir.join(n)) {
+            Ok(now) if &now == c => {}
+            Ok(now) => ctx.report.fail(case_id, "foreign-file-modified", &format!("line {li}: foreign file {n:?} changed from {:?} to {:?}", String::from_utf8_lossy(c), String::from_utf8_lossy(&now))),
+            Err(_) => ctx.report.fail(case_id, "foreign-file-removed", &format!("line {li}: foreign file {n:?} does not exist any more (directory: {:?})", list_dir(&f.dir, &[]))),
+        }
+    }
     let mut order = f.reading_order();
     if h.faulty {
         // a compression whose final removal failed leaves the original next to its .gz:
@@ -518,6 +527,7 @@ pub fn execute(ctx: &mut Ctx, lines: &[String]) -> Vec<String> {
         moved: 0,
         old_current_tokens: vec![],
         moved_names: vec![],
+        foreign_content: Default::default(),
     };
     let mut h = Hist::default();
     let mut out = Vec::with_capacity(lines.len());
@@ -556,8 +566,15 @@ pub fn execute(ctx: &mut Ctx, lines: &[String]) -> Vec<String> {
             }
             ["FOREIGN", name, content] => {
                 let n = unhexs(name).unwrap();
-                std::fs::write(dir.join(&n), unhex(content).unwrap()).unwrap();
-                f.foreign.push(n);
+                let c = unhex(content).unwrap();
+                if n.ends_with('/') {
+                    // a sub-directory named like a log file
+                    std::fs::create_dir_all(dir.join(n.trim_end_matches('/'))).unwrap();
+                } else {
+                    std::fs::write(dir.join(&n), &c).unwrap();
+                    f.foreign_content.insert(n.clone(), c);
+                }
+                f.foreign.push(n.trim_end_matches('/').to_string());
                 "ok".into()
             }
             ["W", b, now, fl] | ["WRAW", b, now, fl] => {
@@ -714,6 +731,28 @@ pub fn execute(ctx: &mut Ctx, lines: &[String]) -> Vec<String> {
                 Ok(p) => hexs(&p.file_name().unwrap().to_string_lossy()),
                 Err(_) => "-".into(),
             },
+            ["EXIST", sel, custom] => {
+                let w = f.ensure().clone();
+                let mut s = if sel.contains('p') { flexi_logger::LogfileSelector::default() } else { flexi_logger::LogfileSelector::none() };
+                if sel.contains('c') { s = s.with_compressed_files(); }
+                if sel.contains('r') { s = s.with_r_current(); }
+                if *custom != "_" { s = s.with_custom_current(&unhexs(&custom[1..]).unwrap()); }
+                match w.existing_log_files(&s) {
+                    Ok(v) => {
+                        let mut got: Vec<String> = v.iter().map(|p| p.file_name().unwrap().to_string_lossy().to_string()).collect();
+                        got.sort();
+                        // oracle (C16): exactly the existing files of the family that the selector asks for
+                        let all = list_dir(&dir, &f.foreign);
+                        for g in &got {
+                            if f.cfg.rot.is_some() && !all.contains(g) {
+                                ctx.report.fail(&case_id, "listed-file-does-not-exist", &format!("line {li}: existing_log_files lists {g:?} which is not in the directory {all:?}"));
+                            }
+                        }
+                        if got.is_empty() { "-".into() } else { got.iter().map(|g| hexs(g)).collect::<Vec<_>>().join(" ") }
+                    }
+                    Err(e) => format!("error {e:?}"),
+                }
+            }
             ["ERRS"] => {
                 let ev = ech.new_for_errs();
                 if ev.is_empty() { "-".into() } else { ev.join(",") }
